@@ -119,7 +119,7 @@ func genEntry(rng *rand.Rand) *Entry {
 		Time:       time.Unix(int64(rng.Intn(2))*1_000_000, 0),
 		Action:     []acl.Action{acl.ActionGet, acl.ActionInfo, acl.ActionPut, acl.ActionActivate, acl.ActionDelete}[rng.Intn(5)],
 		Authorized: rng.Intn(2) == 0,
-		Secret:     []string{"", "alpha", "beta/x", "we\"ird\nname ", "_internal/cfg"}[rng.Intn(5)],
+		Secret:     []string{"", "alpha", "beta/x", "we\"ird\nname\u2028", "_internal/cfg"}[rng.Intn(5)],
 	}
 	if rng.Intn(2) == 0 {
 		e.SecretVersion = api.SecretVersion(rng.Intn(5))
@@ -414,7 +414,7 @@ func (h *harness) file(rng *rand.Rand, dir string, n int) {
 
 func TestVerifReplayAudit(t *testing.T) {
 	focus := strings.ToLower(os.Getenv("VERIF_REPLAY_FOCUS"))
-	rng := rand.New(rand.NewSource(1))
+	rng := rand.New(rand.NewSource(replaySeed()))
 	h := &harness{t: t}
 	nScripted, nFile := 3000, 150
 	switch {
@@ -432,4 +432,11 @@ func TestVerifReplayAudit(t *testing.T) {
 	for i := 0; i < nFile; i++ {
 		h.file(rng, dir, i)
 	}
+}
+
+// replaySeed: the seed is fixed; VERIF_REPLAY_SEED overrides it when exploring by hand.
+func replaySeed() int64 {
+	var n int64 = 1
+	fmt.Sscan(os.Getenv("VERIF_REPLAY_SEED"), &n)
+	return n
 }
